@@ -62,6 +62,7 @@ class Function:
         self.d = d
         self.prog = prog
         self.name = d["name"]
+        self.unit = d.get("unit", 0)
         self.srcname = d.get("srcname", d["name"])
         self.internal = d["internal"]
         self.file = d.get("file", "")
@@ -270,12 +271,16 @@ def _dominators(entry, succ, pred):
 
 class Program:
     def __init__(self, path, repo_root="/repo"):
-        with open(path) as f:
-            d = json.load(f)
+        if isinstance(path, dict):
+            d = path
+        else:
+            with open(path) as f:
+                d = json.load(f)
         self.repo_root = os.path.normpath(repo_root)
         self.raw = d
         self.globals = {g["name"]: g for g in d["globals"]}
         self.structs = d["structs"]
+        self.unit_structs = d.get("unit_structs")
         self.ditypes = d["ditypes"]
         self.decls = set(d["decls"])
         self.functions = {}
@@ -362,6 +367,14 @@ class Program:
             if o <= off < o + max(s, 1):
                 best = (n, o, s, t)
         return best
+
+    def struct_layout(self, fn, sname):
+        """layout of an LLVM struct type as seen by fn's translation unit"""
+        if self.unit_structs is not None and fn is not None:
+            s = self.unit_structs[fn.unit].get(sname)
+            if s is not None:
+                return s
+        return self.structs.get(sname)
 
     # ---- call graph
     def addr_taken(self):
